@@ -33,6 +33,10 @@ type crCase struct {
 	// (compressed bytes are then still parked in the overflow buffer) instead of being read to the end
 	PreCalls int `json:"preCalls,omitempty"`
 	PreBuf   int `json:"preBuf,omitempty"`
+	// PreSize / PreBCS: the earlier stream announced this content size / had block checksums; the judged stream
+	// withdraws them explicitly (SizeOption(0), BlockChecksumOption(false)) when its own options do not have them
+	PreSize uint64 `json:"preSize,omitempty"`
+	PreBCS  bool   `json:"preBCS,omitempty"`
 }
 
 // failingSource delivers data[:failPos] (with fragmentation) and then fails.
@@ -100,6 +104,12 @@ func crRun(args []string) error {
 				pre := &failingSource{fragReader: fragReader{data: bytes.Repeat([]byte("prelude "), c.PreLen/8+1)[:c.PreLen]}}
 				zr = lz4.NewCompressingReader(pre)
 				_ = zr.Apply(lz4.BlockSizeOption(blockSizeOf(c.PreCode)))
+				if c.PreSize > 0 {
+					_ = zr.Apply(lz4.SizeOption(c.PreSize))
+				}
+				if c.PreBCS {
+					_ = zr.Apply(lz4.BlockChecksumOption(true))
+				}
 				if c.PreCalls > 0 {
 					pb := make([]byte, c.PreBuf)
 					for k := 0; k < c.PreCalls; k++ {
@@ -122,6 +132,8 @@ func crRun(args []string) error {
 			opts = append(opts, lz4.BlockChecksumOption(c.Opts.BCS), lz4.ChecksumOption(c.Opts.CCS), lz4.CompressionLevelOption(levelOf(c.Opts.Level)))
 			if c.Opts.Size != nil {
 				opts = append(opts, lz4.SizeOption(*c.Opts.Size))
+			} else if c.PreSize > 0 {
+				opts = append(opts, lz4.SizeOption(0))
 			}
 			if err := zr.Apply(opts...); err != nil {
 				r.panicked = "apply: " + err.Error()
